@@ -137,9 +137,18 @@ def is_call_to(event: Event, name: str, cls_qn: str = None) -> bool:
     if callees is None and event.kind == 'enter':
         callees = [event.data['callee']]
     for callee in callees or ():
-        if callee.fn.name == name and (
-                cls_qn is None or (callee.fn.cls is not None and callee.fn.cls.qn == cls_qn)):
+        if callee.fn.name != name:
+            continue
+        if cls_qn is None or (callee.fn.cls is not None and callee.fn.cls.qn == cls_qn):
             return True
+        # the method may live in a private base class split off `cls_qn`
+        owner = callee.fn.cls
+        if owner is not None and owner.name.startswith('_'):
+            program = getattr(owner.module, 'program', None)
+            target = program.classes.get(cls_qn) if program is not None else None
+            if target is not None and owner.qn in target.mro and \
+                    owner.module is target.module:
+                return True
     return False
 
 
